@@ -178,6 +178,9 @@ class Reject(Exception):
     pass
 
 
+UNDEF = object()      # value of a variable whose domain is empty (and of everything computed from it), see Spec.check_total
+
+
 class Spec:
     """Random variables of the program in creation order.  A ref is ('c', value), ('rv', id) or
     ('tup', tag, [refs]) (a Python container holding refs)."""
@@ -373,6 +376,45 @@ class Spec:
 
     def n_random(self):
         return sum(1 for i in self.needed() if self.defs[i][0] != "det")
+
+    def _undefined(self, r, asg):
+        if r[0] == "rv":
+            return asg.get(r[1]) is UNDEF
+        if r[0] == "tup":
+            return any(self._undefined(x, asg) for x in r[2])
+        return False
+
+    def check_total(self, limit=200000):
+        """Fragment membership: NO needed variable may raise (zero divisor, bad index, inexact float, ...) under ANY
+        joint assignment of the others - including assignments in which some OTHER variable has an empty domain.
+        `prior` stops a branch at the first empty domain in creation order, but the order in which a sampler visits
+        the needed variables is not part of the specification: a sampler that evaluates `2.0 // DiscreteRange(-0.25, 1.5)`
+        before it meets the empty `DiscreteRange(5, 0)` raises ZeroDivisionError where creation order would reject.
+        Such a program has no specified law; the generator must not emit it.  Here a variable with an empty domain is
+        UNDEF, so is everything computed from it, and every other variable is still evaluated.  Raises what the
+        offending variable raises (the generator treats that like any other out-of-fragment program)."""
+        order = self.needed()
+        stack = [({}, 0)]
+        steps = 0
+        while stack:
+            asg, j = stack.pop()
+            steps += 1
+            if steps > limit:
+                raise OverflowError("totality check too large")
+            if j == len(order):
+                continue
+            i = order[j]
+            if any(self._undefined(p, asg) for p in self.defs[i][2]):
+                vals = [UNDEF]
+            else:
+                try:
+                    vals = [v for v, _ in self.law(i, asg)]
+                except Reject:
+                    vals = [UNDEF]
+            for v in vals:
+                a2 = dict(asg)
+                a2[i] = v
+                stack.append((a2, j + 1))
 
     def observe(self, asg):
         out = {}
@@ -822,6 +864,8 @@ def gen_program(rng, max_random=9, max_prior=4000):
             pri, rej = sp.prior(limit=4 * max_prior)
             if len(pri) > max_prior or not pri:
                 continue
+            if rej:          # some branch stops at an empty domain: the variables after it were not evaluated there
+                sp.check_total(limit=50 * max_prior)
         except (OverflowError, ValueError, ZeroDivisionError, IndexError, TypeError):
             continue
         return prog, sp
